@@ -147,7 +147,8 @@ func TryPack(msg *dns.Msg, consume func([]byte) error) (handled bool, err error)
 	// touched.
 	sizeProbe := *msg
 	sizeProbe.Compress = false
-	if sizeProbe.Len() > packBufferSize {
+	size := sizeProbe.Len()
+	if size > packBufferSize {
 		return false, nil
 	}
 
@@ -167,7 +168,7 @@ func TryPack(msg *dns.Msg, consume func([]byte) error) (handled bool, err error)
 		compression = state.compression
 	}
 
-	off, ok := state.packInto(msg, opt, compression, compress)
+	off, ok := state.packInto(msg, opt, size, compression, compress)
 	if !ok {
 		return false, nil
 	}
@@ -319,10 +320,21 @@ type packState struct {
 func (state *packState) packInto(
 	msg *dns.Msg,
 	opt *dns.OPT,
+	size int,
 	compression map[string]int,
 	compress bool,
 ) (int, bool) {
-	out := state.buf[:]
+	// The library packs into a new array of the uncompressed length plus
+	// one, and its packers lean on both halves of that: some advance over
+	// octets they do not write (an A record holding a 16-byte address that
+	// is not IPv4-mapped copies nothing and moves on four), and a record
+	// that outgrows its own Len is an error there. The pooled buffer still
+	// holds the previous message, so the same window is cut from it and
+	// zeroed: an unwritten octet reads zero as it does in the library, never
+	// as another request's payload, and what overflows the library's array
+	// overflows this one and falls back to the library's own error.
+	out := state.buf[:min(size+1, len(state.buf))]
+	clear(out)
 
 	binary.BigEndian.PutUint16(out[0:2], msg.Id)
 	binary.BigEndian.PutUint16(out[2:4], msgBits(msg))
